@@ -77,6 +77,16 @@ PROFILES = {
                 p_trigger=0.4, trigger_states=['DISTRIBUTION', 'OPERATION'], p_wait_exit=0.0, quiesce=240.0,
                 conciliation_strategies=['USER'], loads=[0, 5, 10, 20], p_numprocs=0.1,
                 victim_pool=['$nonmaster', '$nonmaster', '$nonmaster', '$nonmaster', '$master']),
+    'C09': dict(BASE, no_restart_storm=True, max_faults=2, min_faults=0,
+                ops={'stop_application': 4, 'restart_application': 2, 'start_application': 2, 'restart': 0.7,
+                     'shutdown': 0.7}, min_ops=2, max_ops=7,
+                fault_weights={'crash': 2, 'child_exit': 1}, victim_pool=['$nonmaster'], p_trigger=0.6,
+                trigger_states=['RESTARTING', 'SHUTTING_DOWN', 'OPERATION'],
+                child_kinds={'ok': 0.6, 'slow_stop': 0.25, 'ignore_stop': 0.15}, stopwaitsecs=[1, 2, 4, 8, 12],
+                conciliation_strategies=['USER'], running_failure=['CONTINUE', 'STOP_APPLICATION', 'RESTART_APPLICATION'],
+                p_sequenced=0.9, max_seq=3, p_app_sequenced=0.9, max_app_seq=3, n_programs=[2, 3, 4], n_groups=[1, 2, 3],
+                p_managed=0.8, supvisors_failure_strategies=['CONTINUE'], p_autostart=0.1, autorestart=['false'],
+                need_timeout=True, p_absent=0.05, p_disabled=0.0),
     'C02': dict(BASE, max_faults=5, ops='fsm'),
     'C16': dict(BASE, max_faults=5, ops='all', p_absent=0.3, p_shared_node=0.5),
 }
@@ -111,6 +121,9 @@ def observers_for(prop, scen):
     elif prop == 'C06':
         from oracles import failure
         obs.append(failure.RunningFailure())
+    elif prop == 'C09':
+        from oracles import stops
+        obs.append(stops.StopRequests())
     elif prop == 'C05':
         from oracles import conciliation
         obs.append(conciliation.Conciliation())
